@@ -40,7 +40,8 @@ def collect(res, fams=None, want=None):
 def find_input(res, pid, failing):
     """concrete failing input for a not-accepted obligation: bounded search on the real code with the reference
     model of the property (3 nodes, every call, every fault position), known findings subtracted"""
-    fams = sorted({("LightNodeMixin" if "lightnodemixin" in o.name else "NodeMixin") for o in failing})
+    fams = sorted({("LightNodeMixin" if "lightnodemixin" in n else "NodeMixin") for n in failing})
+    fams = fams + [f + "/eq" for f in fams]       # also an adversarial node class whose instances all compare equal
     kn = [e["id"] for e in known.entries() if e["status"] == "known"]
     for props in ([pid], ["C01", "C02", "C03", "C16"]):
         out = driver.harness_json("mutators.py", "search", {"properties": props, "nodes": 3, "maxlen": 2, "known": kn,
@@ -68,7 +69,7 @@ def run(pid, tier, seed):
         res.faults.append("back ends disagree")
     if bad or res.struct:
         names = [o.name for o in bad] + ["STRUCT:" + s.ident for s in res.struct]
-        found, props = find_input(res, pid, bad) if bad else (None, None)
+        found, props = find_input(res, pid, names)
         payload = {"property": pid, "failed_obligations": names[:40],
                    "struct_failures": [{"function": s.ident, "reason": s.msg} for s in res.struct],
                    "solver_output": [{"obligation": o.name, "attempts": o.all_results} for o in bad[:10]],
